@@ -144,6 +144,7 @@ typedef struct {
     unsigned long long spec_misses; /* jump word differed from its previous execution */
 
     unsigned long long last_run_op_count; /* op count of the last run (also on exceptions) */
+    PyObject* last_run_last_ops;          /* last-ops list of a run that ended by a python exception, else NULL */
     double last_run_paused_seconds;       /* IO-paused seconds of the last run (also on exceptions) */
 } MemoryObject;
 
@@ -660,6 +661,7 @@ static int Memory_init(PyObject* op, PyObject* args, PyObject* kwds)
     self->spec_misses = 0;
     self->last_run_op_count = 0;
     self->last_run_paused_seconds = 0.0;
+    Py_CLEAR(self->last_run_last_ops);
     return 0;
 }
 
@@ -669,6 +671,7 @@ static void Memory_dealloc(PyObject* op)
     PyTypeObject* type = Py_TYPE(op);
     freefunc tp_free;
     mem_free_allocations(self);
+    Py_CLEAR(self->last_run_last_ops);
     tp_free = (freefunc)PyType_GetSlot(type, Py_tp_free);
     tp_free(op);
     Py_DECREF(type); /* heap types own a reference from their instances */
@@ -1542,18 +1545,14 @@ static int run_generic_loop(MemoryObject* self, PyObject* read_bit, PyObject* wr
 
 /* build the (cause, op_count, error_bit_address_or_None, last_ops, paused_seconds) result tuple.
    takes ownership of last_ops_ring (frees it). */
-static PyObject* build_run_result(MemoryObject* self, int cause, uint64_t ops, uint64_t* last_ops_ring,
-                                  Py_ssize_t last_ops_length, uint64_t ring_writes, double paused_seconds)
+/* the last-ops ring as a new python list, in execution order (oldest first). NULL on python error. */
+static PyObject* ring_to_list(const uint64_t* last_ops_ring, Py_ssize_t last_ops_length, uint64_t ring_writes)
 {
     PyObject* last_ops_list = PyList_New(0);
-    PyObject* error_address;
     if (!last_ops_list) {
-        free(last_ops_ring);
         return NULL;
     }
-    (void)ops;
     if (last_ops_ring) {
-        /* emit in execution order: oldest first */
         uint64_t total = (ring_writes < (uint64_t)last_ops_length) ? ring_writes : (uint64_t)last_ops_length;
         uint64_t ring_pos = ring_writes % (uint64_t)last_ops_length;
         uint64_t start = (ring_pos + (uint64_t)last_ops_length - total) % (uint64_t)last_ops_length;
@@ -1562,13 +1561,24 @@ static PyObject* build_run_result(MemoryObject* self, int cause, uint64_t ops, u
             if (!address || PyList_Append(last_ops_list, address) < 0) {
                 Py_XDECREF(address);
                 Py_DECREF(last_ops_list);
-                free(last_ops_ring);
                 return NULL;
             }
             Py_DECREF(address);
         }
-        free(last_ops_ring);
     }
+    return last_ops_list;
+}
+
+static PyObject* build_run_result(MemoryObject* self, int cause, uint64_t ops, uint64_t* last_ops_ring,
+                                  Py_ssize_t last_ops_length, uint64_t ring_writes, double paused_seconds)
+{
+    PyObject* last_ops_list = ring_to_list(last_ops_ring, last_ops_length, ring_writes);
+    PyObject* error_address;
+    free(last_ops_ring);
+    if (!last_ops_list) {
+        return NULL;
+    }
+    (void)ops;
     if (cause == TERM_MEMORY_ERROR) {
         error_address = PyLong_FromUnsignedLongLong(self->error_bit_address);
     } else {
@@ -1608,6 +1618,7 @@ static PyObject* Memory_run(MemoryObject* self, PyObject* args, PyObject* kwds)
         return NULL;
     }
 
+    Py_CLEAR(self->last_run_last_ops);
     self->spec_measured = 0;
     {
         const char* measure_speculation = getenv("FLIPJUMP_MEASURE_SPECULATION");
@@ -1649,6 +1660,20 @@ static PyObject* Memory_run(MemoryObject* self, PyObject* args, PyObject* kwds)
         int loop_cause = run_generic_loop(self, read_bit, write_bit, eof_exception_type, start_ip, &loop_ops,
                                           &loop_paused, last_ops_ring, last_ops_length, &loop_ring_writes);
         if (loop_cause == CAUSE_PYTHON_ERROR) {
+            /* the run was stopped by a python exception (IO-device error, Ctrl+C): keep the last-ops
+               list readable (last_run_last_ops), like last_run_op_count, without losing the exception */
+            PyObject *exc_type, *exc_value, *exc_traceback, *kept;
+            PyErr_Fetch(&exc_type, &exc_value, &exc_traceback);
+            kept = ring_to_list(last_ops_ring, last_ops_length, loop_ring_writes);
+            if (!kept) {
+                PyErr_Clear();
+            }
+            {
+                PyObject* previous = self->last_run_last_ops;
+                self->last_run_last_ops = kept;
+                Py_XDECREF(previous);
+            }
+            PyErr_Restore(exc_type, exc_value, exc_traceback);
             free(last_ops_ring);
             return NULL;
         }
@@ -1661,6 +1686,16 @@ static PyObject* Memory_get_op_count(MemoryObject* self, void* closure)
 {
     (void)closure;
     return PyLong_FromUnsignedLongLong(self->last_run_op_count);
+}
+
+static PyObject* Memory_get_last_ops(MemoryObject* self, void* closure)
+{
+    (void)closure;
+    if (!self->last_run_last_ops) {
+        return PyList_New(0);
+    }
+    Py_INCREF(self->last_run_last_ops);
+    return self->last_run_last_ops;
 }
 
 static PyObject* Memory_get_paused_seconds(MemoryObject* self, void* closure)
@@ -1711,6 +1746,8 @@ static PyMethodDef Memory_methods[] = {
 static PyGetSetDef Memory_getset[] = {
     {"last_run_op_count", (getter)Memory_get_op_count, NULL, "op count of the last run (valid on exceptions too)",
      NULL},
+    {"last_run_last_ops", (getter)Memory_get_last_ops, NULL,
+     "the last-ops list of the last run when it was stopped by a python exception (else empty)", NULL},
     {"last_run_paused_seconds", (getter)Memory_get_paused_seconds, NULL,
      "IO-paused seconds of the last run (valid on exceptions too)", NULL},
     {"allocated_bytes", (getter)Memory_get_allocated_bytes, NULL,
